@@ -871,11 +871,63 @@ fn value_conversions(cx: &mut Ctx) {
     let t = sm::tsx(&lx.file);
     let checks = [
         ("radix-int", "letvalue_text=self.radix_run(radix);letend_pos=self.get_pos();letvalue=BigInt::from_str_radix(&value_text,radix)", "prefixed integers: BigInt::from_str_radix(&value_text, radix)"),
-        ("decimal-int", "letvalue=value_text.parse::<BigInt>().unwrap();", "decimal integers: value_text.parse::<BigInt>()"),
-        ("float", "letvalue=f64::from_str(&value_text).map_err(", "floats: f64::from_str(&value_text)"),
-        ("imag-int", "letimag=f64::from_str(&value_text).unwrap();", "imaginary integer literals: f64::from_str(&value_text)"),
-        ("complex-value", "Tok::Complex{imag:value,real:0.0}", "the float path's imaginary literal carries the parsed value with real 0.0"),
     ];
+    // decimal literals: every Tok::Int / Tok::Float / Tok::Complex built in lex_normal_number takes its value from a
+    // local that is initialised by the trusted conversion of the scanned text (however its failure is handled:
+    // unwrap, map_err(..)?), and the real part of an imaginary literal is 0.0
+    if let Some(f) = lr::lexer_method(&lx, "lex_normal_number") {
+        let mut inits: BTreeMap<String, Vec<String>> = BTreeMap::new();
+        sm::for_each_stmt_in_block(&f.block, &mut |st| {
+            if let syn::Stmt::Local(l) = st {
+                if let (Some(init), syn::Pat::Ident(pi)) = (&l.init, &l.pat) {
+                    inits.entry(pi.ident.to_string()).or_default().push(sm::tsc(&init.expr));
+                }
+            }
+        });
+        let from = |name: &str, prefix: &str| inits.get(name).map_or(false, |v| v.iter().any(|i| i.starts_with(prefix)));
+        let mut n = [0usize; 3];
+        sm::for_each_expr_in_block(&f.block, |e| {
+            if let syn::Expr::Struct(st) = e {
+                let ty = sm::tsc(&st.path);
+                let field = |n: &str| st.fields.iter().find(|f| sm::ts(&f.member) == n).map(|f| sm::tsc(&f.expr));
+                match ty.as_str() {
+                    "Tok::Int" => {
+                        n[0] += 1;
+                        let v = field("value").unwrap_or_default();
+                        if from(&v, "value_text.parse::<BigInt>()") {
+                            cx.ok(rule, "decimal integers: value_text.parse::<BigInt>()");
+                        } else {
+                            cx.fail(rule, &format!("{}/decimal-int", rule), &lx.loc(st), &format!("Tok::Int {{ value: {} }}: the value does not come from value_text.parse::<BigInt>()", v));
+                        }
+                    }
+                    "Tok::Float" => {
+                        n[1] += 1;
+                        let v = field("value").unwrap_or_default();
+                        if from(&v, "f64::from_str(&value_text)") {
+                            cx.ok(rule, "floats: f64::from_str(&value_text)");
+                        } else {
+                            cx.fail(rule, &format!("{}/float", rule), &lx.loc(st), &format!("Tok::Float {{ value: {} }}: the value does not come from f64::from_str(&value_text)", v));
+                        }
+                    }
+                    "Tok::Complex" => {
+                        n[2] += 1;
+                        let (re, im) = (field("real").unwrap_or_default(), field("imag").unwrap_or_default());
+                        if re == "0.0" && from(&im, "f64::from_str(&value_text)") {
+                            cx.ok(rule, "imaginary literals: real 0.0, imag = f64::from_str(&value_text)");
+                        } else {
+                            cx.fail(rule, &format!("{}/complex-value", rule), &lx.loc(st), &format!("Tok::Complex {{ real: {}, imag: {} }}: an imaginary literal must carry real 0.0 and the parsed text as its imaginary part", re, im));
+                        }
+                    }
+                    _ => {}
+                }
+            }
+        });
+        if n.iter().any(|k| *k == 0) {
+            cx.fail(rule, &format!("{}/token-sites", rule), &lx.loc(f), &format!("lex_normal_number builds {} Int, {} Float and {} Complex tokens; at least one of each is expected (fail closed)", n[0], n[1], n[2]));
+        }
+    } else {
+        cx.anchor_missing(rule, "lex_normal_number");
+    }
     // radix_run pushes every digit it takes: through take_number (`Some(c) => push(c)`) or with the digit test in place
     let via_helper = t.contains("matchself.take_number(radix){Some(c)=>{value_text.push(c);},");
     let in_place = t.contains("ifLexer::is_digit_of_radix(self.window[0],radix){value_text.push(self.next_char().unwrap())");
